@@ -191,6 +191,7 @@ func cmdRun(args []string) {
 	if sc == nil {
 		die(2, "unknown property %q", *prop)
 	}
+	h.Tier = *tier
 	t0 := time.Now()
 	o := &Output{Prop: *prop, Seed: *seed, Start: *start, Faults: map[string]int64{}, Probes: map[string]int64{}, Rule: sc.Rule}
 	seen := map[uint64]bool{}
@@ -367,6 +368,12 @@ func cmdReplay(args []string) {
 	if detail != "" {
 		fmt.Printf("detail: %s\n", detail)
 	}
+	// the race detector reports each race once per process, so which of several races of a world is named
+	// first depends on what the process saw before: any data race reproduces a data-race violation
+	if strings.HasPrefix(wantClass, "C08/data-race") && strings.HasPrefix(got, "C08/data-race") {
+		fmt.Printf("REPRODUCED property=%s class=%q (recorded as %q)\n", w.Prop, got, wantClass)
+		return
+	}
 	if got != wantClass || (wantDigest != "" && ro.Digest != wantDigest) {
 		fmt.Printf("MISMATCH: file says class=%q digest=%s\n", wantClass, wantDigest)
 		os.Exit(3)
@@ -379,6 +386,7 @@ func cmdReplay(args []string) {
 // runSequence executes the listed world indices in order in this process and
 // returns the first violation (class, detail, index).
 func runSequence(sc *h.Scenario, prop string, sq *h.SeqSpec, want string) (string, string, int) {
+	h.Tier = sq.Tier
 	for _, idx := range sq.Indices {
 		ws := h.Mix(sq.Seed, uint64(idx))
 		var w *h.World
